@@ -88,6 +88,23 @@ func corpusJobs() []job {
 	add(expNoErr, `BEGIN { r = getline; $0 = "a b[xc"; print $1 }`, args("FS=[x"))
 	add(expNoErr, `BEGIN { r = getline; r2 = getline; r3 = getline v; print r, r2, r3, $1, v }`, args("RS=[x", "DIR/data.txt"))
 	add(expNoErr, `BEGIN { r = getline v; $0 = "a b[xc"; print $1, $2; while ((getline w) > 0) n++; print n, $NF }`, args("DIR/data.txt", "FS=a(", "RS=(b", "DIR/data.txt"))
+	// G02-3 (repaired in 049913b): a var=value operand assigns a rejected INPUTMODE / OUTPUTMODE (separator not a valid character,
+	// separator = comment, unknown mode, bad option); plain getline swallows the error; the rejected value took effect and the next
+	// read sliced past the end of the line. Every rejected value of every special variable, reached through every getline form,
+	// followed by more reads, splits and prints: no panic.
+	for _, bad := range []string{"INPUTMODE=csv separator=\xff", "INPUTMODE=tsv separator=\xc3", "INPUTMODE=csv separator=, comment=,", "INPUTMODE=csv separator=\"", "INPUTMODE=csv comment=\xfe",
+		"INPUTMODE=bogus", "INPUTMODE=csv separator=ab", "INPUTMODE=csv header=maybe", "INPUTMODE=csv separator=\x00", "OUTPUTMODE=csv separator=\xff", "OUTPUTMODE=tsv separator=\n", "OUTPUTMODE=nope",
+		"OUTPUTMODE=csv separator=ab", "CONVFMT=%d %d", "OFMT=%s", "NF=-1", "NF=1e9", "NR=x", "FS=a(", "RS=(b", "SUBSEP=\xff", "ARGC=-1", "RSTART=x", "FILENAME=zz"} {
+		for _, prog := range []string{
+			`BEGIN { r1 = (getline x); r2 = (getline y); print r1, r2, x, y; $0 = "p,q\xffr s"; print NF, $1, $2; $3 = "t"; print }`,
+			`BEGIN { r1 = getline; print r1, NF, $1; r2 = getline; print r2, NF, $1, $2; while ((getline z) > 0) n++; print n, NR }`,
+			`BEGIN { getline junk } { print NR, NF, $1; $2 = "v w"; print; print $1, $2 > "/dev/stdout" } END { print NR, $0 }`,
+			`NR == 1 { getline; getline u; print NR, NF, u } { n += NF } END { print n, split($0, parts), length(parts) }`,
+		} {
+			add(expAny, prog, args(bad, "DIR/bin.txt", bad, "DIR/data.txt"))
+			add(expAny, prog, args("DIR/data.txt", bad, "DIR/bin.txt"))
+		}
+	}
 	add(expRegexErr, `{ print $1 }`, args("DIR/data.txt", "FS=[x", "DIR/data.txt"))
 	add(expRegexErr, `{ print $1 }`, args("RS=[x", "DIR/data.txt"))
 	add(expRegexErr, `BEGIN { FS = "[x" } { print $1 }`)
